@@ -11,7 +11,10 @@
      read at [row, a, a], [row, b, b], [row, a, b]:  df = Na + Nb - Nab,
      t = (cp[row, b] - cp[row, a]) / sqrt(1/df (pa(1-pa) + pb(1-pb) + 2 pa pb - 2 pab)),
      p = 2 (1 - cdf(|t|, df - 2)) for every function cdf.
-   NOT read: _hs_t_stats / _hs_p_vals (imperative loops with .append over the inserted rows).
+   _PairwiseSigTStatsForSubvar._hs_t_stats / _PairwiseSigPValsForSubvar._hs_p_vals (the two nested loops
+   with .append over the INSERTED rows: the helper on the inserted-rows block of the column proportions
+   and on OverlapSubtotals.blocks(<overlap tensor>, .., diff_cols_nan=True)[1][0]; the empty-block guard)
+   denote ov_tblock / ov_pblock on those blocks.
    See GenAgreePairTac.v. *)
 From Coq Require Import QArith Qabs ZArith List Bool Lia Arith String.
 From CC Require Import Base.XQ Base.ListX Base.MeasureExp Base.PairExp Model.Pairwise Model.PairwiseP
@@ -41,13 +44,13 @@ Definition no_pcube (_ _ : string) : mval := VErr.
 Definition penv_helper (nr nc : nat) (row a b : Z) (CP : list (list xq))
            (c3 : string -> string -> list (list (list xq))) (cdf : xq -> xq -> xq) : penv :=
   mkPenv (psize nr nc 0 0) (hix row a b) no_loop no_pblk no_pblock (hcube CP) no_pslice c3
-         no_pflag cdf.
+         no_pflag cdf no_ncdf no_pscal no_ovrows.
 
 (* the ...ForSubvar measures: blocks by name, the cube's 3-D overlap tensors by name *)
 Definition penv_ov (nr nc nrs ncs : nat) (sel : Z) (blk : string -> nat -> nat -> list (list xq))
-           (c3 : string -> string -> list (list (list xq))) (cdf : xq -> xq -> xq) : penv :=
+           (c3 ovr : string -> string -> list (list (list xq))) (cdf : xq -> xq -> xq) : penv :=
   mkPenv (psize nr nc nrs ncs) (sel_ix sel) no_loop blk no_pblock no_pcube no_pslice c3
-         no_pflag cdf.
+         no_pflag cdf no_ncdf no_pscal ovr.
 
 Ltac ov_eval0 :=
   cbv [penv_helper penv_ov hix hcube no_pblk no_pflag no_pcube]; pair_eval0.
@@ -190,10 +193,10 @@ Proof. intros [_ H] Hn. exact (proj1 (H 0 Hn)). Qed.
 
 Lemma gen_PairwiseSigTStatsForSubvar_t_stats :
   match src_PairwiseSigTStatsForSubvar_t_stats with
-  | Some e => forall nr nc nrs ncs a blk c3 cdf,
+  | Some e => forall nr nc nrs ncs a blk c3 ovr cdf,
       ov_shaped blk c3 nr nc -> a < nc ->
-      pagrees_mat (penv_ov nr nc nrs ncs (Z.of_nat a) blk c3 cdf)
-                  (pev true (penv_ov nr nc nrs ncs (Z.of_nat a) blk c3 cdf) e) DR DC
+      pagrees_mat (penv_ov nr nc nrs ncs (Z.of_nat a) blk c3 ovr cdf)
+                  (pev true (penv_ov nr nc nrs ncs (Z.of_nat a) blk c3 ovr cdf) e) DR DC
                   (mnth (ov_tblock a (blk "column_proportions" 0 0)
                                    (c3 "cube_overlaps" "selected_bases") (c3 "cube_overlaps" "valid_bases")))
   | None => True
@@ -203,7 +206,7 @@ Proof.
   lazymatch goal with
   | |- True => exact I
   | _ =>
-      intros nr nc nrs ncs a blk c3 cdf [[HCr HCc] [HSs HNs]] Ha;
+      intros nr nc nrs ncs a blk c3 ovr cdf [[HCr HCc] [HSs HNs]] Ha;
       apply ptab2_agrees;
       [ exact (proj1 HNs)
       | intros Hpos; exact (sq3_first _ _ _ HNs Hpos)
@@ -220,10 +223,10 @@ Qed.
 
 Lemma gen_PairwiseSigPValsForSubvar_p_vals :
   match src_PairwiseSigPValsForSubvar_p_vals with
-  | Some e => forall nr nc nrs ncs a blk c3 cdf,
+  | Some e => forall nr nc nrs ncs a blk c3 ovr cdf,
       ov_shaped blk c3 nr nc -> a < nc ->
-      pagrees_mat (penv_ov nr nc nrs ncs (Z.of_nat a) blk c3 cdf)
-                  (pev false (penv_ov nr nc nrs ncs (Z.of_nat a) blk c3 cdf) e) DR DC
+      pagrees_mat (penv_ov nr nc nrs ncs (Z.of_nat a) blk c3 ovr cdf)
+                  (pev false (penv_ov nr nc nrs ncs (Z.of_nat a) blk c3 ovr cdf) e) DR DC
                   (mnth (ov_pblock cdf a (blk "column_proportions" 0 0)
                                    (c3 "cube_overlaps" "selected_bases") (c3 "cube_overlaps" "valid_bases")))
   | None => True
@@ -233,7 +236,7 @@ Proof.
   lazymatch goal with
   | |- True => exact I
   | _ =>
-      intros nr nc nrs ncs a blk c3 cdf [[HCr HCc] [HSs HNs]] Ha;
+      intros nr nc nrs ncs a blk c3 ovr cdf [[HCr HCc] [HSs HNs]] Ha;
       apply ptab2_agrees;
       [ exact (proj1 HNs)
       | intros Hpos; exact (sq3_first _ _ _ HNs Hpos)
@@ -245,5 +248,140 @@ Proof.
         | ov_facts (c3 "cube_overlaps" "selected_bases") (c3 "cube_overlaps" "valid_bases")
                    nr nc i a b HSs HNs Hi Ha Hb;
           ov_model_p ] ]
+  end.
+Qed.
+
+(* ---- the inserted rows ------------------------------------------------------------------------------ *)
+Lemma ptabr_agrees sq E r c a body rt ct f0 (g : nat -> nat -> xq) :
+  pev true E r = VMat rt ct f0 ->
+  nrows (nth 0 (pe_cube3 E c a) []) = pe_size E DC ->
+  (forall i j, i < pe_size E rt -> j < pe_size E DC ->
+               pagrees_scal (pev sq (with_loop E i j) body) (g i j)) ->
+  pagrees_mat E (pev sq E (PTabR r c a body)) rt DC g.
+Proof.
+  intros Hr H2 H3. cbn [pev]. rewrite Hr, H2, Nat.eqb_refl.
+  assert (Hall : forallb (fun i => forallb (fun j => is_scal (pev sq (with_loop E i j) body))
+                                           (seq 0 (pe_size E DC))) (seq 0 (pe_size E rt)) = true).
+  { apply forallb_forall. intros i Hi. apply forallb_forall. intros j Hj.
+    apply in_seq in Hi. apply in_seq in Hj.
+    specialize (H3 i j ltac:(lia) ltac:(lia)).
+    destruct (pev sq (with_loop E i j) body); simpl in H3; try contradiction. reflexivity. }
+  rewrite Hall. cbn [pagrees_mat]. split; [reflexivity|split; [reflexivity|]].
+  intros i j Hi Hj. specialize (H3 i j Hi Hj).
+  destruct (pev sq (with_loop E i j) body); simpl in H3; try contradiction. exact H3.
+Qed.
+
+(* the inserted-rows blocks: column proportions [1][0] and the two overlap tensors' rows blocks *)
+Definition hs_shaped (blk : string -> nat -> nat -> list (list xq))
+           (ovr : string -> string -> list (list (list xq))) (nrs nc : nat) : Prop :=
+  shaped (blk "column_proportions" 1 0) nrs nc /\
+  sq3 (ovr "cube_overlaps" "selected_bases") nrs nc /\ sq3 (ovr "cube_overlaps" "valid_bases") nrs nc.
+
+Ltac hs_cells cell_model :=
+  lazymatch goal with
+  | |- pagrees_mat ?E (pev ?sq ?E (PIf ?c (PZeroRows ?ts) ?tab)) _ _ _ =>
+      change (pev sq E (PIf c (PZeroRows ts) tab))
+        with (match pcev E c with
+              | Some true => pev sq E (PZeroRows ts)
+              | Some false => pev sq E tab
+              | None => VErr
+              end);
+      change (pev sq E (PZeroRows ts))
+        with (match pev true E ts with
+              | VMat _ cc _ => if Nat.eqb (pe_size E DRS) 0 then VMat DRS cc (fun _ _ => Fin 0%Q) else VErr
+              | _ => VErr
+              end)
+  end.
+
+Lemma gen_PairwiseSigTStatsForSubvar__hs_t_stats :
+  match src_PairwiseSigTStatsForSubvar__hs_t_stats with
+  | Some e => forall nr nc nrs ncs a blk c3 ovr cdf,
+      ov_shaped blk c3 nr nc -> 0 < nr -> hs_shaped blk ovr nrs nc -> a < nc ->
+      pagrees_mat (penv_ov nr nc nrs ncs (Z.of_nat a) blk c3 ovr cdf)
+                  (pev true (penv_ov nr nc nrs ncs (Z.of_nat a) blk c3 ovr cdf) e) DRS DC
+                  (mnth (ov_tblock a (blk "column_proportions" 1 0)
+                                   (ovr "cube_overlaps" "selected_bases") (ovr "cube_overlaps" "valid_bases")))
+  | None => True
+  end.
+Proof.
+  pose proof gen_PairwiseSigTStatsForSubvar_t_stats as Ht.
+  unfold src_PairwiseSigTStatsForSubvar_t_stats in Ht.
+  punfold_srcs;
+  lazymatch goal with
+  | |- True => exact I
+  | _ =>
+      intros nr nc nrs ncs a blk c3 ovr cdf Hov Hnr [[HCr HCc] [HSs HNs]] Ha;
+      specialize (Ht nr nc nrs ncs a blk c3 ovr cdf Hov Ha);
+      hs_cells idtac;
+      replace (pcev (penv_ov nr nc nrs ncs (Z.of_nat a) blk c3 ovr cdf)
+                    (CSizeZero (PBlock "column_proportions" 1 0)))
+        with (Some (Nat.eqb (nrs * nc) 0)) by reflexivity;
+      destruct (Nat.eqb (nrs * nc) 0) eqn:Hz;
+      [ (* no inserted rows *)
+        unfold pagrees_mat in Ht;
+        lazymatch type of Ht with
+        | match ?v with _ => _ end => destruct v as [| | |r c f]; try contradiction
+        end;
+        destruct Ht as [_ [-> _]];
+        assert (Hn0 : nrs = 0) by (apply Nat.eqb_eq in Hz; destruct nrs; [reflexivity|simpl in Hz; lia]);
+        cbv [penv_ov pe_size psize pagrees_mat]; rewrite Hn0; cbv [Nat.eqb];
+        split; [reflexivity|split; [reflexivity|intros i j Hi; lia]]
+      | apply (ptabr_agrees true _ _ _ _ _ DRS DC (fun i j => ssq (mnth (blk "column_proportions" 1 0) i j)));
+        [ reflexivity
+        | destruct Hov as [_ [_ HN0]]; exact (sq3_first _ _ _ HN0 Hnr)
+        | intros i b Hi Hb; cbv [penv_ov pe_size psize] in Hi, Hb; shape_use;
+          ov_eval0; rewrite ?Zeqb_nat;
+          unfold ov_tblock; rewrite HCr, HCc; rewrite tab2_mnth by assumption;
+          destruct (Nat.eqb b a) eqn:Eab;
+          [ reflexivity
+          | ov_facts (ovr "cube_overlaps" "selected_bases") (ovr "cube_overlaps" "valid_bases")
+                     nrs nc i a b HSs HNs Hi Ha Hb;
+            ov_model_t ] ] ]
+  end.
+Qed.
+
+Lemma gen_PairwiseSigPValsForSubvar__hs_p_vals :
+  match src_PairwiseSigPValsForSubvar__hs_p_vals with
+  | Some e => forall nr nc nrs ncs a blk c3 ovr cdf,
+      ov_shaped blk c3 nr nc -> 0 < nr -> hs_shaped blk ovr nrs nc -> a < nc ->
+      pagrees_mat (penv_ov nr nc nrs ncs (Z.of_nat a) blk c3 ovr cdf)
+                  (pev false (penv_ov nr nc nrs ncs (Z.of_nat a) blk c3 ovr cdf) e) DRS DC
+                  (mnth (ov_pblock cdf a (blk "column_proportions" 1 0)
+                                   (ovr "cube_overlaps" "selected_bases") (ovr "cube_overlaps" "valid_bases")))
+  | None => True
+  end.
+Proof.
+  pose proof gen_PairwiseSigTStatsForSubvar_t_stats as Ht.
+  unfold src_PairwiseSigTStatsForSubvar_t_stats in Ht.
+  punfold_srcs;
+  lazymatch goal with
+  | |- True => exact I
+  | _ =>
+      intros nr nc nrs ncs a blk c3 ovr cdf Hov Hnr [[HCr HCc] [HSs HNs]] Ha;
+      specialize (Ht nr nc nrs ncs a blk c3 ovr cdf Hov Ha);
+      hs_cells idtac;
+      replace (pcev (penv_ov nr nc nrs ncs (Z.of_nat a) blk c3 ovr cdf)
+                    (CSizeZero (PBlock "column_proportions" 1 0)))
+        with (Some (Nat.eqb (nrs * nc) 0)) by reflexivity;
+      destruct (Nat.eqb (nrs * nc) 0) eqn:Hz;
+      [ unfold pagrees_mat in Ht;
+        lazymatch type of Ht with
+        | match ?v with _ => _ end => destruct v as [| | |r c f]; try contradiction
+        end;
+        destruct Ht as [_ [-> _]];
+        assert (Hn0 : nrs = 0) by (apply Nat.eqb_eq in Hz; destruct nrs; [reflexivity|simpl in Hz; lia]);
+        cbv [penv_ov pe_size psize pagrees_mat]; rewrite Hn0; cbv [Nat.eqb];
+        split; [reflexivity|split; [reflexivity|intros i j Hi; lia]]
+      | apply (ptabr_agrees false _ _ _ _ _ DRS DC (fun i j => ssq (mnth (blk "column_proportions" 1 0) i j)));
+        [ reflexivity
+        | destruct Hov as [_ [_ HN0]]; exact (sq3_first _ _ _ HN0 Hnr)
+        | intros i b Hi Hb; cbv [penv_ov pe_size psize] in Hi, Hb; shape_use;
+          ov_eval0; rewrite ?Zeqb_nat;
+          unfold ov_pblock; rewrite HCr, HCc; rewrite tab2_mnth by assumption;
+          destruct (Nat.eqb b a) eqn:Eab;
+          [ reflexivity
+          | ov_facts (ovr "cube_overlaps" "selected_bases") (ovr "cube_overlaps" "valid_bases")
+                     nrs nc i a b HSs HNs Hi Ha Hb;
+            ov_model_p ] ] ]
   end.
 Qed.
